@@ -6,10 +6,12 @@ PROP = dict(
                        "body_drained (spooled copy byte-identical iff the MIME rule selects it)",
                        "body_closed_exactly_once", "body_error_no_spool", "body_quiet_ok",
                        "body_drained (MIME detected on exactly the first min(2048,len) bytes)"]),
-        dict(driver="discard", binary="zwarc", quick=160, thorough=2000, shard=20,
+        dict(driver="discard", binary="zwarc", quick=110, thorough=1500, shard=14,  # one case = 15 environments x 606 statuses
              monitors=["discard_iff (exhaustive over status x cf-mitigated shapes x Server/CDN header and body environments)", "discard_reason", "is_challenge_page",
                        "hooks_pure (after the chain returned the body reader still yields every byte)",
                        "hooks_pure (verdicts depend on status and cf-mitigated only, not on Server/other headers or the body)"]),
+        # origin pages include the class the discard hooks look at (403/429/503 + Server: cloudflare / other CDN headers, no challenge header)
+        # and head twins (payloads above the dedupe threshold differing only in the first KB): tags hit:server-*, head-twins
         # about a third of the warcleg cases run the archiver with --proxy (local SOCKS5 proxy): the proxied WARC client
         # (ClientWithProxy) is then judged by the same monitors, in particular rejected_never_stored (tags proxy:true/false)
         dict(driver="warcleg", binary="zwarc", quick=34, thorough=250, shard=12, noshrink=False,
@@ -40,11 +42,15 @@ PROP = dict(
                  "MaxRetry >= 0"],
     level_text="Theorems for all reader scripts (chunkings, non-sticky errors, deadline failures), all MIME oracles and configurations "
                "(ProcessBody drains the body and keeps a byte-identical copy exactly when the MIME rule selects it); for all status codes, "
-               "header values and discard lists (policy); for all outcome sequences of client.Do (attempts <= MaxRetry+1, bodies closed "
+               "header values and discard lists (policy); for all hook lists, header maps and bodies (the chain is a function of status and "
+               "cf-mitigated that hands the body reader on untouched, so the recorder digests the payload itself and a revisit can only stand "
+               "for an identical payload; Builder.Build preserves this for any pure hooks); for all outcome sequences of client.Do (attempts <= MaxRetry+1, bodies closed "
                "on every exit, SetStatus(ItemArchived) only after the feedback of that very request; lifted to all interleavings with the "
                "writer under the feedback contract). Tied to the code by three differential legs on every run: real ProcessBody on "
-               "scripted readers, the real hook chain swept exhaustively over 100..599 x header shapes, and the real archiver with a real "
+               "scripted readers, the real hook chain swept exhaustively over 100..599 x 15 header/Server/body environments with a watched body "
+               "reader (still yields every byte afterwards), and the real archiver with a real "
                "WARC client (direct, or the proxied one behind a local SOCKS5 --proxy) in one process per case, read back with an independent WARC reader at the arch.written point, at archiver "
-               "exit and after Stop.",
+               "exit and after Stop (origin pages include CDN error pages - 403/429/503 with Server: cloudflare and other CDN headers - and "
+               "payloads that differ only in their first KB; a revisit must refer to a stored response with the identical payload).",
     technique="Coq model + proofs; differential testing of ProcessBody / discard chain / archive() against the model; independent WARC reader",
 )
